@@ -211,10 +211,16 @@ def run_case(case):
     hits = [0]
     reported = [False]
 
+    shared = {}
+
     def step(ai, hist):
         e, j = actions[ai]
         wc.reset_log()
-        got = observe(wc, lambda: objs[e].evaluate(copy.deepcopy(dicts[j])))
+        # one dictionary OBJECT for the whole history, updated in place (the usual sweep loop
+        # "opts['A'] = a; graph(opts)"): nothing may be remembered by object identity
+        shared.clear()
+        shared.update(copy.deepcopy(dicts[j]))
+        got = observe(wc, lambda: objs[e].evaluate(shared))
         if not any(k == "body" for k, _ in wc.log) and got.ok:
             hits[0] += 1
         d = same_obs(got, twin[(e, j)])
